@@ -96,23 +96,46 @@ def _stepcount(repo, col, fi, ex, R="R-C07-stepcount"):
         col.unk(R, fi, "length passed to the scan", "not found", node=call)
         return
     # the slice bound of the returned recordings
-    recs = next((n for n in walk_no_nested(fi.node) if isinstance(n, ast.Assign) and isinstance(n.targets[0], ast.Name)
-                 and n.targets[0].id == "recs"), None)
+    # (the statement that cuts the scan's outputs `<scan result>[1][:n]`, whatever its target is called)
     bound = None
-    if recs is not None:
-        rt = ex.term(recs.value)
-        sl = T.find(rt, lambda x: x.op == "sub" and x.args[1].op == "slice" and x.args[0].op == "item")
-        if sl is not None:
-            bound = sl.args[1].args[1]
+    for n_ in walk_no_nested(fi.node):
+        if isinstance(n_, (ast.Assign, ast.Return)) and n_.value is not None and bound is None:
+            rt = ex.term(n_.value)
+            sl = T.find(rt, lambda x: x.op == "sub" and x.args[1].op == "slice" and x.args[0].op == "item" and
+                        T.find(x.args[0], lambda y: y.op == "call" and y.name == "nested_checkpoint_scan") is not None)
+            if sl is not None:
+                bound = sl.args[1].args[1]
     if bound is None:
         col.unk(R, fi, "number of returned steps", "slice bound of the recordings not found", node=fi.node)
         return
     # the state returned with return_states=True must be the scan's final carry
     rets = [r for r in ex.returns]
-    for cond, lv in _alts(length):
+    def path_label(conds):
+        """'un-checkpointed path' / 'checkpointed path' from the polarity of the test of checkpoint_lengths against None,
+        however the if/else is arranged; other conditions are spelled out"""
+        lab, rest = None, []
+        for c, pol in conds:
+            c0, p0 = c, pol
+            while c0.op == "not" or (c0.op == "unary" and c0.name == "Not"):
+                c0, p0 = c0.args[0], not p0
+            if c0.op == "cmp" and c0.name in ("is", "is not", "==", "!=") and len(c0.args) == 2 and \
+                    any(a_.op == "param" and a_.name == "checkpoint_lengths" for a_ in c0.args) and \
+                    any(a_.op == "const" and a_.name is None for a_ in c0.args):
+                is_none = (c0.name in ("is", "==")) == p0
+                lab = "un-checkpointed path" if is_none else "checkpointed path"
+            else:
+                rest.append(("" if pol else "not ") + c.pretty())
+        return (lab or "path") + ((" / " + " / ".join(rest)) if rest else "")
+
+    def alts_t(t, conds=()):
+        if t.op == "ifexp":
+            return alts_t(t.args[1], conds + ((t.args[0], True),)) + alts_t(t.args[2], conds + ((t.args[0], False),))
+        return [(conds, t)]
+    for conds, lv in alts_t(length):
+        cond = path_label(conds) if conds else ""
         # resolve the bound under the same condition: both are conditional on `checkpoint_lengths is None`
         same = lv.key() == bound.key() or any(bv.key() == lv.key() for _c, bv in _alts(bound))
-        what = "un-checkpointed path" if "is" in cond and "not(" not in cond.split("/")[0] else "path " + (cond or "(single)")
+        what = cond
         node = next((n for n in walk_no_nested(fi.node) if isinstance(n, ast.Assign) and isinstance(n.targets[0], ast.Name)
                      and n.targets[0].id == "length" and (lv.node is None or n.value is lv.node)), call)
         col.check(same, R, fi, f"scan length on the {what.strip()}" if cond else "scan length",
@@ -180,21 +203,24 @@ def _single(repo, col, fi, ex):
         and bt.kw.get("solver") is not None and bt.kw["solver"].op == "param" and bt.kw["solver"].name == "solver"
     col.check(okb, R, fi, "integrate builds init_fn/step_fn with its own solver settings", "",
               f"called as {bt.short(120)}", node=bc)
+    def built(t_, k):
+        """t_ is element k of what build_init_and_step_fn returned (0: init_fn, 1: step_fn), whatever the local is called"""
+        return T.find(t_, lambda x: x.op == "item" and x.name == k and x.args[0].op == "call" and x.args[0].name == "build_init_and_step_fn") is not None
     ic = next((n for n in walk_no_nested(fi.node) if isinstance(n, ast.Assign) and isinstance(n.value, ast.Call)
-               and unparse(n.value.func) == "init_fn"), None)
+               and isinstance(n.value.func, ast.Name) and built(ex.term(n.value.func), 0)), None)
     if ic is None:
         raise AnalysisError("integrate no longer calls init_fn")
     a = [unparse(x) for x in ic.value.args]
     col.check(a == ["params", "all_states", "param_state", "delta_t"], R, fi, "init_fn(params, all_states, param_state, delta_t)", str(a),
               f"init_fn is called with {a}", node=ic)
     tg = [unparse(x) for x in ic.targets[0].elts] if isinstance(ic.targets[0], ast.Tuple) else []
-    col.check(tg == ["all_states", "all_params"], R, fi, "init_fn's results bound as (all_states, all_params)", str(tg),
+    col.check(len(tg) == 2 and tg[0] == "all_states", R, fi, "init_fn's results bound as (all_states, <parameters>)", str(tg),
               f"bound to {tg}", node=ic)
     from . import c08
     body = c08.scan_body(repo, fi, ex)
     if body is None:
         raise AnalysisError("the scan body handed to nested_checkpoint_scan was not found")
-    sc2 = next((c for c in body.calls if isinstance(c.func, ast.Name) and c.func.id == "step_fn"), None)
+    sc2 = next((c for c in body.calls if isinstance(c.func, ast.Name) and built(body.term(c.func), 1)), None)
     if sc2 is None:
         raise AnalysisError("the scan body no longer calls step_fn")
     bp = body.fi.params
@@ -226,7 +252,8 @@ def _single(repo, col, fi, ex):
     seed = t.args[1] if len(t.args) > 1 else None
     src = None
     for n in walk_no_nested(fi.node):
-        if isinstance(n, ast.Assign) and isinstance(n.targets[0], ast.Name) and n.targets[0].id == "recs" and "concatenate" in unparse(n.value):
+        if isinstance(n, ast.Assign) and isinstance(n.targets[0], ast.Name) and "concatenate" in unparse(n.value) and \
+                T.find(ex.term(n.value), lambda y: y.op == "call" and y.name == "nested_checkpoint_scan") is not None:
             tt = ex.term(n.value)
             cat = T.find(tt, lambda x: x.op == "mcall" and x.name == "concatenate")
             if cat is not None and len(cat.args) > 1 and cat.args[1].op in ("list", "tuple") and cat.args[1].args:
